@@ -30,7 +30,9 @@ func c09Doc(feature int, v string, n int) map[string]any {
 		s["secrets"] = []any{map[string]any{"source": "xa"}, map[string]any{"source": "zot", "target": "/run/secrets/" + v}}
 		s["configs"] = []any{"cfg"}
 		doc["secrets"] = map[string]any{"xa": map[string]any{"file": "/f"}, "zot": map[string]any{"file": "/z"}}
-		doc["configs"] = map[string]any{"cfg": map[string]any{"content": "c" + v}}
+		// an environment-sourced config (its variable is set) next to configs of the other kinds, and likewise for secrets
+		doc["configs"] = map[string]any{"cfg": map[string]any{"content": "c" + v}, "cenv": map[string]any{"environment": "E"}, "cfile": map[string]any{"file": "/cf"}, "aext": map[string]any{"external": true}}
+		doc["secrets"].(map[string]any)["senv"] = map[string]any{"environment": "E"}
 	case 5: // ports and volumes, devices
 		s["ports"] = []any{"8080:80", map[string]any{"target": 53, "protocol": "udp", "published": "53", "mode": "host"}}
 		s["volumes"] = []any{"/host/" + v + ":/t:ro", "vol:/data", map[string]any{"type": "tmpfs", "target": "/tmp", "tmpfs": map[string]any{"size": 1024}}}
@@ -77,7 +79,7 @@ func VerifC09RoundTrip() {
 	n := []int{1, 0, -1, 3}[vrtChoice("n", 4)]
 	json := vrtChoice("json", 2) == 1
 	doc := c09Doc(feature, v, n)
-	env := types.Mapping{}
+	env := types.Mapping{"E": "val" + v}
 	p1, err := tcLoadProject(env, nil, doc)
 	vrtObserve("err1", err != nil)
 	if err != nil {
